@@ -30,11 +30,17 @@ import logging
 log = logging.getLogger(__name__)
 
 
-def send_request(socket, snep_request, send_miu):
+def send_request(socket, snep_request, send_miu, timeout=None):
     if len(snep_request) <= send_miu:
         return socket.send(snep_request)
 
     if not socket.send(snep_request[0:send_miu]):
+        return False
+
+    # Wait for the server's answer to the first fragment no longer
+    # than for a response: a server that stays silent must not hold
+    # the calling thread for as long as the link is up.
+    if timeout is not None and not socket.poll("recv", timeout):
         return False
 
     if socket.recv() != b"\x10\x80\x00\x00\x00\x00":
@@ -151,7 +157,7 @@ class SnepClient(object):
             request = struct.pack('>BBLL', 0x10, 0x01, 4 + len(octets),
                                   self.acceptable_length) + octets
 
-            if not send_request(self.socket, request, self.send_miu):
+            if not send_request(self.socket, request, self.send_miu, timeout):
                 return None
 
             response = recv_response(
@@ -206,7 +212,7 @@ class SnepClient(object):
 
         try:
             request = struct.pack('>BBL', 0x10, 0x02, len(octets)) + octets
-            if not send_request(self.socket, request, self.send_miu):
+            if not send_request(self.socket, request, self.send_miu, timeout):
                 return False
 
             response = recv_response(self.socket, 0, timeout)
